@@ -2,6 +2,8 @@
 
 Case format: first line "cfg <agents K> <nodes N> [stress]", then one API call per line:
   on t | off t | qs t | ab t n | run t | qb t          (lock-step and stress)
+  ab t n keep | ab t n rearm                           (lock-step: the callback keeps the node object for a later "ab" of the slot /
+                                                        re-registers its own node once from inside run(); plain "ab": it frees it)
   rd t | qr t n                                        (stress only: read published objects / unpublish+quiescent_barrier+reclaim)
   expect_drained                                       (lock-step: every registered callback must have run by now)
 
@@ -20,13 +22,14 @@ class Sim:
         self.defr = [False] * K
         self.pend = [[] for _ in range(K)]
         self.tg = [0] * N
+        self.rearm = [False] * N
         self.dead = False
 
     def copy(self):
         s = Sim.__new__(Sim)
         s.K, s.N, s.ctr, s.des, s.na, s.ta = self.K, self.N, self.ctr, self.des, self.na, self.ta
         s.acked = list(self.acked); s.defr = list(self.defr); s.pend = [list(p) for p in self.pend]
-        s.tg = list(self.tg); s.dead = self.dead
+        s.tg = list(self.tg); s.rearm = list(self.rearm); s.dead = self.dead
         return s
 
     def online(self):
@@ -91,9 +94,16 @@ class Sim:
                 return "assert"
             self.tg[n] = target
             self.pend[t].append(n)
+            self.rearm[n] = len(op) > 3 and op[3] == "rearm"
         elif o == "run":
             while self.pend[t] and self.ctr >= self.tg[self.pend[t][0]]:
-                self.tg[self.pend[t].pop(0)] = 0
+                n = self.pend[t].pop(0)
+                self.tg[n] = 0
+                if self.rearm[n]:          # the callback registers the node again: target ctr + 2, not reached by this run()
+                    self.rearm[n] = False
+                    self.des = max(self.des, self.ctr + 2)
+                    self.tg[n] = self.ctr + 2
+                    self.pend[t].append(n)
         elif o == "qb":
             target = self.ctr + 2
             self.des = max(self.des, target)
@@ -135,7 +145,7 @@ def drain(s, lines):
         return
     if not s.online():
         lines.append("on 0"); s.step(("on", 0))
-    for _ in range(8):
+    for _ in range(14):
         if not any(s.tg):
             break
         for t in s.online():
@@ -143,7 +153,8 @@ def drain(s, lines):
         for t in range(s.K):
             if s.pend[t]:
                 lines.append("run %d" % t); s.step(("run", t))
-    lines.append("expect_drained")
+    if not any(s.tg):
+        lines.append("expect_drained")
 
 
 def gen_case(rng, n_ops, K=None, N=None):
@@ -158,6 +169,7 @@ def gen_case(rng, n_ops, K=None, N=None):
          "steady": dict(on=6, off=0.3, qs=8, ab=3, run=3, qb=0.5),
          "defer": dict(on=3, off=1, qs=10, ab=1.5, run=2, qb=0.5)}[style]
     bad_at = rng.randrange(n_ops) if rng.random() < 0.08 else -1     # one call violating a precondition
+    reuse = rng.random() < 0.5          # callbacks keep / re-arm their nodes (node objects are registered again)
     for i in range(n_ops):
         if i == bad_at:
             t = rng.randrange(K)
@@ -167,6 +179,12 @@ def gen_case(rng, n_ops, K=None, N=None):
         else:
             ops = valid_ops(s, allow_d07=rng.random() < 0.02)
             op = rng.choices(ops, [w[o[0]] for o in ops])[0]
+        if op[0] == "ab" and reuse:
+            m = rng.random()
+            if m < 0.4:
+                op = op + ("keep",)
+            elif m < 0.7:
+                op = op + ("rearm",)
         lines.append(fmt(op))
         r = s.step(op)
         if r != "ok":
@@ -228,6 +246,14 @@ def corpus():
         ("corpus-two-barriers", ["cfg 2 4", "on 0", "on 1", "ab 0 0", "qs 0", "qs 1", "ab 0 2", "ab 1 1", "qs 1", "qs 0", "run 0", "qs 0", "qs 1", "run 0", "run 1", "qs 0", "qs 1", "run 0", "run 1", "expect_drained"]),
         ("corpus-qb-alone", ["cfg 2 1", "on 0", "qb 0", "qs 0", "qb 0", "on 1", "off 0", "qb 1"]),
         ("corpus-double-register", ["cfg 1 1", "on 0", "ab 0 0", "ab 0 0"]),
+        # seeded list.hpp change (erase() leaves the erased element's next link): a node popped while another barrier is queued
+        # behind it keeps a link into the pending list; the callback re-arms it / the node object is registered again later
+        ("corpus-rearm", ["cfg 1 2", "on 0", "ab 0 0 rearm", "ab 0 1", "qs 0", "qs 0", "qs 0", "run 0", "qs 0", "qs 0", "qs 0", "run 0", "expect_drained"]),
+        ("corpus-reuse", ["cfg 1 2", "on 0", "ab 0 0 keep", "ab 0 1 keep", "qs 0", "qs 0", "qs 0", "run 0", "ab 0 0 keep", "qs 0", "qs 0", "qs 0",
+                          "run 0", "expect_drained"]),
+        ("corpus-rearm-2agents", ["cfg 2 4", "on 0", "on 1", "ab 0 0 rearm", "ab 0 2 rearm", "ab 1 1 keep", "qs 0", "qs 1", "qs 0", "qs 1", "qs 0", "qs 1",
+                                  "run 0", "run 1", "ab 1 1", "off 1", "qs 0", "qs 0", "qs 0", "run 0", "on 1", "qs 0", "qs 1", "qs 0", "qs 1", "run 1",
+                                  "expect_drained"]),
     ]
 
 
